@@ -155,6 +155,15 @@ def run_nndvi(p, script, seed=0):
         elif s[0] == "reset":
             det.reset()
             e = {"op": "reset", "ref": refrows()}
+        elif s[0] in ("bad_ref", "bad_update"):
+            # a malformed set_reference / update (one column too many, or a single row): refused, and nothing about the detector moves
+            width = len(script[0][1][0])
+            bad = np.zeros((5, width + 1)) if t % 2 else np.zeros((1, width))
+            try:
+                (det.set_reference if s[0] == "bad_ref" else det.update)(bad)
+                e = {"op": "refused-but-accepted", "ref": refrows()}
+            except ValueError:
+                e = {"op": "refused", "ref": refrows()}
         else:
             ref_before = np.array(det.reference_batch, dtype=float)
             X = np.array(to_det(s[1]), dtype=float)
@@ -215,6 +224,8 @@ def nndvi_history(rng, nb, equal_sizes=False, some_even=False):
             script.append(("set_reference", lattice(rng, rng.randint(8, 20), d, loc, spread)))
         if rng.random() < 0.05 and b > 0:
             script.append(("reset",))
+        if rng.random() < 0.12:
+            script.append((rng.choice(["bad_ref", "bad_update"]),))
         n = n0 if equal_sizes else rng.randint(6, 28)
         if rng.random() < 0.12 and not equal_sizes:
             # the reference fed again, or a sub-sample of it (a replayed file, categorical data whose distinct rows are all known already):
@@ -225,6 +236,14 @@ def nndvi_history(rng, nb, equal_sizes=False, some_even=False):
             continue
         script.append(("update", lattice(rng, n, d, loc, spread, some_even and rng.random() < 0.4)))
     return script
+
+
+def safe_k(script, k):
+    """the largest neighbourhood size <= k that is legal for EVERY pair of batches of the history (the neighbours are looked for among the pooled
+    distinct points of reference and batch; which batch is the reference at a given time depends on the drifts)"""
+    bs = [s_[1] for s_ in script if len(s_) > 1]
+    m = min(len({tuple(r) for r in a + b}) for i, a in enumerate(bs) for b in bs[i + 1:]) if len(bs) > 1 else len({tuple(r) for r in bs[0]})
+    return max(1, min(k, m))
 
 
 def nndvi_history_wide(rng, nb, k):
